@@ -46,6 +46,41 @@ type c16Case struct {
 	OneWrite bool
 	Chunks   []int
 	Cycle    bool
+	// how the serving peer was built (phist_test.go) and the registering steps of the
+	// routes that the client's CALL and PUSH frames name
+	Hist   phHistory
+	CallAt int
+	PushAt int
+}
+
+// c16Hist draws the installation history of the serving peer of the C16 checks: the checker
+// (and the hook counter) is given to NewPeer, or appended to the peer's container at some point
+// of a generated sequence of route / group / unknown-handler registrations and of other
+// plugins coming and going, or given to NewPeer, removed and appended again.
+func c16Hist(t *rapid.T) (phHistory, int, int) {
+	g := genPHistory(t, "hist", phGenCfg{NCall: 3, NPush: 2, MaxDepth: 3, MaxSteps: 8, GroupPlugs: 1, RoutePlugs: 1, Unknown: true, Boot: true,
+		Targets: []phTarget{
+			{Name: "auth-checker", How: []string{"new", "new", "left", "left", "right", "right", "right", "reinstall"}},
+			{Name: "c16hooks", How: []string{"new", "new", "left", "right"}},
+		}})
+	g.ensureRoute("call", rapid.IntRange(0, 2).Draw(t, "callfn"), "")
+	g.ensureRoute("push", rapid.IntRange(0, 1).Draw(t, "pushfn"), "")
+	return g.H, g.Ensured[0], g.Ensured[1]
+}
+
+// c16Server builds the serving peer along the history.
+func c16Server(w *vt.World, h phHistory, callAt, pushAt int, checker erpc.Plugin, hooks *msgHookCounter) (srv erpc.Peer, callRoute, pushRoute string) {
+	b := phBuild(w, erpc.PeerConfig{}, h, func(name string) erpc.Plugin {
+		switch name {
+		case "auth-checker":
+			return checker
+		case "c16hooks":
+			return hooks
+		}
+		return phNoisePlugin(name)
+	}, phLibFns)
+	bindLib(b.Peer)
+	return b.Peer, b.Paths[callAt], b.Paths[pushAt]
 }
 
 func genC16(t *rapid.T, protos []vt.NamedProto) c16Case {
@@ -57,6 +92,7 @@ func genC16(t *rapid.T, protos []vt.NamedProto) c16Case {
 	c.Pushes = rapid.IntRange(0, 2).Draw(t, "pushes")
 	c.OneWrite = rapid.Bool().Draw(t, "onewrite")
 	c.Chunks, c.Cycle = vt.Chunks(t, "chunks")
+	c.Hist, c.CallAt, c.PushAt = c16Hist(t)
 	return c
 }
 
@@ -100,8 +136,7 @@ func runC16(c c16Case, protos []vt.NamedProto) []string {
 	}, erpc.WithBodyCodec('s'))
 	w := vt.NewWorld()
 	defer w.Close()
-	srv := w.Peer(erpc.PeerConfig{}, checker, hooks)
-	callRoute, pushRoute := registerLib(srv)
+	srv, callRoute, pushRoute := c16Server(w, c.Hist, c.CallAt, c.PushAt, checker, hooks)
 	var fails []string
 	failf := func(format string, a ...interface{}) { fails = append(fails, fmt.Sprintf(format, a...)) }
 
@@ -283,7 +318,7 @@ func runC16(c c16Case, protos []vt.NamedProto) []string {
 	return fails
 }
 
-const ruleC16 = "serving peer with auth.NewCheckerPlugin (verdict by credentials / second receive attempt on bad credentials / reject after SetID / panic; before its verdict the checker renames the session 0-3 times) and a counter on every per-message hook; a raw client's first frame is {good AUTH_CALL, bad AUTH_CALL, CALL, PUSH, REPLY, AUTH_REPLY, unknown type, over-limit garbage, half an auth frame then close, nothing then close, CALL before the auth frame} with 0-3 CALLs and 0-2 PUSHes pipelined behind it, in one write or several, under a generated read chunking; oracle: checker runs exactly once; without a successful exchange no handler and no per-message hook runs, the client gets at most one AUTH_REPLY then EOF, nothing is indexed (also not under any id the checker set); with a successful exchange the pipelined CALLs are answered exactly once; non-trivial = first frame is not a plain good AUTH_CALL or frames are pipelined; distinct by case"
+const ruleC16 = "serving peer built along a generated installation history (the checker and the hook counter are given to NewPeer, or appended with AppendLeft / AppendRight before any route, after some routes, after handlers inside SubRoute groups nested 1-3 deep, after SetUnknownCall / SetUnknownPush, or given to NewPeer, removed and appended again; other plugins are appended, removed and attached to groups and routes before and after; a plugin given to NewPeer may register a route from PostNewPeer; the client addresses a drawn one of the registered routes) with auth.NewCheckerPlugin (verdict by credentials / second receive attempt on bad credentials / reject after SetID / panic; before its verdict the checker renames the session 0-3 times) and a counter on every per-message hook; a raw client's first frame is {good AUTH_CALL, bad AUTH_CALL, CALL, PUSH, REPLY, AUTH_REPLY, unknown type, over-limit garbage, half an auth frame then close, nothing then close, CALL before the auth frame} with 0-3 CALLs and 0-2 PUSHes pipelined behind it, in one write or several, under a generated read chunking; oracle: checker runs exactly once; without a successful exchange no handler and no per-message hook runs, the client gets at most one AUTH_REPLY then EOF, nothing is indexed (also not under any id the checker set); with a successful exchange the pipelined CALLs are answered exactly once; non-trivial = first frame is not a plain good AUTH_CALL or frames are pipelined; distinct by case"
 
 func TestC16Auth(t *testing.T) {
 	rec := vt.NewRec(t, "C16", "checker", ruleC16)
@@ -291,7 +326,14 @@ func TestC16Auth(t *testing.T) {
 	rapid.Check(t, func(t *rapid.T) {
 		c := genC16(t, protos)
 		nt := c.First != "goodauth" || c.Pipeline+c.Pushes > 0 || c.Verdict != "bycreds"
-		rec.Case(fmt.Sprintf("%+v", c), nt, "first="+c.First, "verdict="+c.Verdict, fmt.Sprintf("accepted=%v", c.accepted()))
+		classes := []string{"first=" + c.First, "verdict=" + c.Verdict, fmt.Sprintf("accepted=%v", c.accepted())}
+		in := c.Hist.install("auth-checker")
+		classes = append(classes, in.classes("checker")...)
+		classes = append(classes, fmt.Sprintf("checker=%s/accepted=%v", in.How, c.accepted()))
+		if r, ok := c.Hist.routeAt(c.CallAt); ok {
+			classes = append(classes, fmt.Sprintf("call-route-depth=%d", r.Depth))
+		}
+		rec.Case(fmt.Sprintf("%+v", c), nt, classes...)
 		if rec.WantSample() && nt {
 			rec.Sample(c)
 		}
